@@ -6,10 +6,21 @@
    object of every response, with and without injected faults, are compared with the reference
    (oracle c04_partial_holds: equal data without errors, a sub-tree of it with errors). *)
 From Coq Require Import String List Bool ZArith.
-From GW Require Import Base.Res Base.GoStr Base.Json Gw.Points Proofs.CodecProofs Proofs.PointsProofs Proofs.FindProofs.
+From GW Require Import Base.Res Base.GoStr Base.Json Gw.Points Gw.Plan Gw.Scrub Proofs.CodecProofs Proofs.PointsProofs Proofs.FindProofs Proofs.ScrubProofs.
 Import ListNotations.
 Open Scope string_scope.
 Open Scope list_scope.
+
+(* Which places are scrubbed (Gw/Scrub.v: generateScrubFields, compared with every plan's
+   FieldsToScrub on every run): only insertion points of the plan's own steps, none of them twice,
+   and never one at which the client's (flattened) selection asks for the response key id -- a
+   requested id, under whatever field or alias, is not among the keys to delete. *)
+Theorem C04_only_unrequested_ids_are_scrubbed : forall fuel client root ps,
+  scrub_fields fuel client root = Ok ps ->
+  NoDup ps /\
+  Forall (fun p => p <> [] /\ exists target, descend p client = Ok target /\ natural_id target = false) ps.
+Proof. exact scrub_fields_sound. Qed.
+Print Assumptions C04_only_unrequested_ids_are_scrubbed.
 
 (* scrubbing a point removes exactly the named field of the object there: it is gone, and every
    other key of that object keeps its value *)
